@@ -319,7 +319,7 @@ def execute(ctx, programs):
 def run(ctx):
     rng = ctx.rng
     programs = corpus_programs(ctx)
-    n = ctx.budget(16, 150)
+    n = ctx.budget(16, 100)
     while len(programs) < n:
         programs.append(gen_program(rng))
     t0 = time.time()
